@@ -325,29 +325,68 @@ def check_attribute_dispatch(ctx):
                 shapes['attributeGroup'].append(n)
     f_ct = sm.func('XSDComplexType', 'get_xsd_attributes', T.M_COMPLEX)
     f_ag = sm.func('XSDAttributeGroup', 'get_xsd_attributes', T.M_ATTR)
-    # every For loop over children in these functions must dispatch on both attribute-like tags present in its domain
-    for fn, doms in ((f_ct, ['simpleContent', 'complexContent', 'plain']), (f_ag, ['attributeGroup'])):
-        loops = [n for n in ast.walk(fn.node) if isinstance(n, ast.For)]
-        res.check(len(loops) == len(doms), 'R-EXH.attributes', fn.fq,
-                  f"one child loop per content shape ({doms})", fail_detail=f"{len(loops)} loops",
-                  key=f"R-EXH.attributes|loops|{fn.qualname}")
-        for loop, dom in zip(sorted(loops, key=lambda l: l.lineno), doms):
+
+    def helper_of(fn, call):
+        """A function of the same class / module called by (unqualified or cls./self.) name: an extracted loop."""
+        name = call.func.attr if isinstance(call.func, ast.Attribute) and unparse(call.func.value) in ('cls', 'self', fn.cls.name if fn.cls else '') else \
+            (call.func.id if isinstance(call.func, ast.Name) else None)
+        if name is None:
+            return None
+        if fn.cls is not None and name in fn.cls.methods and fn.cls.methods[name] is not fn:
+            return fn.cls.methods[name]
+        return fn.module.functions.get(name)
+
+    def loops_below(fn, stmts, depth=0):
+        """For-loops with a tag dispatch in these statements, following calls of extracted helpers."""
+        out = []
+        for st in stmts:
+            for n in ast.walk(st):
+                if isinstance(n, ast.For) and tag_tests(n):
+                    out.append(n)
+                elif isinstance(n, ast.Call) and depth < 2:
+                    h = helper_of(fn, n)
+                    if h is not None and h is not fn:
+                        out += loops_below(h, h.node.body, depth + 1)
+        return out
+
+    # XSDComplexType: the three content shapes are the branches of one if/elif/else; each must reach a dispatching loop
+    chain = [n for n in f_ct.node.body if isinstance(n, ast.If)]
+    top = None
+    for n in ast.walk(f_ct.node):
+        if isinstance(n, ast.If) and 'get_simple_content_extension()' in unparse(n.test):
+            top = n
+    branches = {}
+    if top is not None:
+        branches['simpleContent'] = top.body
+        nxt = top.orelse[0] if len(top.orelse) == 1 and isinstance(top.orelse[0], ast.If) else None
+        if nxt is not None and 'get_complex_content()' in unparse(nxt.test):
+            branches['complexContent'] = nxt.body
+            branches['plain'] = nxt.orelse
+    res.check(set(branches) == {'simpleContent', 'complexContent', 'plain'}, 'R-EXH.attributes', f_ct.fq,
+              "the attribute table is resolved by content shape: simpleContent extension / complexContent extension / plain",
+              fail_detail=f"recognised branches: {sorted(branches)}", key='R-EXH.attributes|shapes')
+    branches_ag = {'attributeGroup': f_ag.node.body}
+    for fn, brs in ((f_ct, branches), (f_ag, branches_ag)):
+        for dom_name, body in brs.items():
+            loops = loops_below(fn, body)
+            res.check(bool(loops), 'R-EXH.attributes', fn.fq, f"[{dom_name}] the children are iterated and dispatched on their tag",
+                      key=f"R-EXH.attributes|loops|{fn.qualname}|{dom_name}")
             handled = set()
-            for op, c, cmp_ in tag_tests(loop):
-                if op == '==':
-                    handled.add(c)
-            present = _child_tag_domain(shapes[dom]) & attr_like
+            txt = ''
+            for loop in loops:
+                for op, c, cmp_ in tag_tests(loop):
+                    if op == '==':
+                        handled.add(c)
+                txt += unparse(loop)
+            present = _child_tag_domain(shapes[dom_name]) & attr_like
             for tag in sorted(present):
-                res.check(tag in handled, 'R-EXH.attributes', fn.fq, f"[{dom}] child '{tag}' contributes to the attribute table",
-                          fail_detail=f"handled: {sorted(handled)}", key=f"R-EXH.attributes|{fn.qualname}|{dom}|{tag}")
-            # the attribute branch appends XSDAttribute(child); the group branch extends with the group's table
-            txt = unparse(loop)
+                res.check(tag in handled, 'R-EXH.attributes', fn.fq, f"[{dom_name}] child '{tag}' contributes to the attribute table",
+                          fail_detail=f"handled: {sorted(handled)}", key=f"R-EXH.attributes|{fn.qualname}|{dom_name}|{tag}")
             res.check('XSDAttribute(' in txt and '.get_xsd_attributes()' in txt, 'R-EXH.attributes', fn.fq,
-                      f"[{dom}] attribute -> XSDAttribute(child), attributeGroup -> that group's table",
-                      key=f"R-EXH.attributes|{fn.qualname}|{dom}|actions")
+                      f"[{dom_name}] attribute -> XSDAttribute(child), attributeGroup -> that group's table",
+                      key=f"R-EXH.attributes|{fn.qualname}|{dom_name}|actions")
     # complexContent: the base type's table is included
-    txt = unparse(f_ct.node)
-    res.check('extension_base.get_xsd_attributes()' in txt or ".get_xsd_attributes())" in txt and 'complex_type' in txt,
-              'R-EXH.attributes', f_ct.fq, "complexContent/extension includes the attribute table of its base type",
-              key="R-EXH.attributes|extension-base-table")
+    cc_txt = ' '.join(unparse(st) for st in branches.get('complexContent', []))
+    res.check('.get_xsd_attributes()' in cc_txt and "'complex_type'" in cc_txt, 'R-EXH.attributes', f_ct.fq,
+              "complexContent/extension includes the attribute table of its base type", key="R-EXH.attributes|extension-base-table")
     res.floor('R-EXH.attributes content shapes', sum(1 for k in shapes if shapes[k]), 4)
